@@ -65,9 +65,16 @@ fn guard_to_boundary<T: ToTokens>(
             // Nothing to validate, so every possible value for the inner type is valid.
         }
         IntegerGuard::WithValidation {
-            sanitizers: _,
+            sanitizers,
             validation,
         } => {
+            if !sanitizers.is_empty() {
+                // A custom sanitizer may move a generated value out of the valid range.
+                return Err(syn::Error::new(
+                    proc_macro2::Span::call_site(),
+                    "Cannot derive trait `Arbitrary` for a type with `with` sanitizer and validations.\nYou have to implement `Arbitrary` trait on you own.",
+                ));
+            }
             match validation {
                 Validation::Custom { .. } => {
                     return Err(syn::Error::new(
